@@ -188,6 +188,21 @@ class C09(Check):
                 split_affected = True
             if split_affected:
                 ctx.probe("known:noise-prefix-split-reached")
+        # Second known finding of the same family: _run decides "all measurements are terminal" on the
+        # noiseless circuit and then samples every measurement from the final state, although the noise model
+        # inserts channels after (between) the measurement moments.
+        terminal_affected = False
+        if noise is not None and not with_noise_circuit and entry == "run":
+            from cirq.sim.simulator import split_into_matching_protocol_then_general
+            if kind == "dm":
+                _pre, suf2 = split_into_matching_protocol_then_general(
+                    sim_circuit, lambda op: not cirq.measurement_keys_touched(op))
+            else:
+                suf2 = sim_circuit
+            gen_ops = list(suf2.all_operations())
+            terminal_affected = bool(gen_ops) and all(isinstance(op.gate, cirq.MeasurementGate) for op in gen_ops)
+            if terminal_affected:
+                ctx.probe("known:noise-terminal-fastpath-reached")
         try:
             if entry == "run":
                 bits = max(total_bits, 0.5)
@@ -206,6 +221,8 @@ class C09(Check):
             if split_affected and v.cls in (f"{P}-STATE", f"{P}-DIST"):
                 raise Violation(v.cls, v.message, fingerprint=f"{P}-NOISE-PREFIX-SPLIT:DensityMatrixSimulator(noise=)."
                                                               f"simulate/run") from None
+            if terminal_affected and v.cls == f"{P}-DIST":
+                raise Violation(v.cls, v.message, fingerprint=f"{P}-NOISE-TERMINAL-FASTPATH:Simulator(noise=).run") from None
             raise
         if stats.get("uniform"):
             ctx.probe("draw:uniform-kraus", stats["uniform"])
